@@ -447,11 +447,20 @@ func c20Prefix(r *vfRand, pool []c20Key, maxLen int) string {
 	return sb.String()
 }
 
+// c20Pick: 1..max distinct keys; with a small chance one key is repeated (the
+// argument of a single Put/Delete call then contains a duplicate).
 func c20Pick(r *vfRand, pool []c20Key, max int) []c20Key {
 	n := 1 + r.Intn(max)
-	out := make([]c20Key, 0, n)
+	if n > len(pool) {
+		n = len(pool)
+	}
+	p := r.Perm(len(pool))
+	out := make([]c20Key, 0, n+1)
 	for i := 0; i < n; i++ {
-		out = append(out, pool[r.Intn(len(pool))])
+		out = append(out, pool[p[i]])
+	}
+	if r.Chance(4) {
+		out = append(out, out[r.Intn(len(out))])
 	}
 	return out
 }
